@@ -160,8 +160,8 @@ def run(ctx):
             x = np.array(ops[-1][1])
             with ec.EighCapture() as cap:
                 el = m2.update(x, electronics=prev)
-            if cap.calls:
-                _a, w, cf = cap.calls[0]
+            if True:
+                _a, w, cf = ec.first_eigh(cap, "model.update", W=(None if cap.calls else np.asarray(m2.V(x))))
                 N, n = m2.nstates(), m2.ndim()
                 dV = np.asarray(m2.dV(x))
                 if dV.shape == (n, N, N):
